@@ -528,8 +528,11 @@ Example plist_nonvacuous :
   /\ Forall fits_pt (deltas_from (0, 0) [(10, 0); (10, 5); (0, 5)])
   /\ spec_enc_plist 5 true [(0, 0); (10, 0); (10, 5); (0, 5)] = Some [5; 3; 160; 1; 43; 10; 43; 11]%N.
 Proof.
-  repeat split; try (vm_compute; reflexivity).
-  repeat constructor; cbn; unfold fits63, two63; lia.
+  split; [vm_compute; reflexivity|]. split; [vm_compute; reflexivity|].
+  split; [vm_compute; reflexivity|]. split; [vm_compute; reflexivity|].
+  split; [|vm_compute; reflexivity].
+  cbn [deltas_from fst snd]. unfold fits_pt, fits63, two63. cbn [fst snd].
+  repeat (apply Forall_cons; [cbn beta; cbn [fst snd]; change (Z.of_N 9223372036854775808) with 9223372036854775808; split; lia|]). apply Forall_nil.
 Qed.
 
 Print Assumptions point_list_accepts_all_types_lemma.
